@@ -716,3 +716,147 @@ where
 
     (cx.viols, cx.calls)
 }
+
+// ---------------------------------------------------------------------------------------
+// large-vector scan: the file-IO back-end across its refill-buffer boundaries
+// ---------------------------------------------------------------------------------------
+
+macro_rules! array_val {
+    ($($n:expr),*) => {$(
+        impl Val for [u8; $n] {
+            fn make(x: u64) -> Self {
+                let mut a = [0u8; $n];
+                for (i, b) in a.iter_mut().enumerate() {
+                    *b = (x >> ((i % 8) * 8)) as u8 ^ (i as u8).wrapping_mul(31);
+                }
+                a
+            }
+            fn bits(&self) -> u128 {
+                crate::seqx::hash64(self) as u128
+            }
+        }
+    )*};
+}
+array_val!(3, 20);
+
+fn bigscan_one<V>(tag: &'static str, n: usize, out: &mut Vec<Violation>, calls: &mut u64)
+where
+    V: vecdb::StoredVec<I = usize> + vecdb::ImportableVec,
+    V::T: Val,
+{
+    let root = crate::scratch::Scratch::new("bigscan");
+    let dir = root.sub("db");
+    let r = guarded(|| -> Result<Vec<(String, String)>, String> {
+        let db = rawdb::Database::open(&dir).map_err(|e| format!("{e:?}"))?;
+        let mut v = V::import(&db, "big", vecdb::Version::ONE).map_err(|e| format!("{e:?}"))?;
+        let want: Vec<V::T> = (0..n as u64).map(|i| V::T::make(i * 2654435761 + 17)).collect();
+        for x in &want {
+            v.push(*x);
+        }
+        v.write().map_err(|e| format!("{e:?}"))?;
+        let sz = size_of::<V::T>();
+        let per_buf = 512 * 1024 / sz;
+        let ranges = [
+            (0usize, n),
+            (per_buf.saturating_sub(700), (per_buf + 800).min(n)),
+            (per_buf.min(n - 1), n),
+            (2 * per_buf.min(n / 2) - 1, n),
+            (n - 1, n),
+        ];
+        let mut bad = Vec::new();
+        let ro = v.read_only_clone();
+        let saved = threshold(MMAP_CROSSOVER_CELL);
+        for (f, t) in ranges {
+            if f >= t {
+                continue;
+            }
+            let exp: Vec<u128> = want[f..t].iter().map(|x| x.bits()).collect();
+            let mut cmp = |api: &str, got: Vec<V::T>| {
+                let g: Vec<u128> = got.iter().map(|x| x.bits()).collect();
+                if g != exp {
+                    let first = g.iter().zip(&exp).position(|(a, b)| a != b).unwrap_or(g.len().min(exp.len()));
+                    bad.push((
+                        api.to_string(),
+                        format!("[{f},{t}) of {n} x {sz}-byte elements: returned {} elements, expected {}, first difference at position {first}", g.len(), exp.len()),
+                    ));
+                }
+            };
+            cmp("collect_range_at", v.collect_range_at(f, t));
+            cmp("ro_clone:collect_range_at", ro.collect_range_at(f, t));
+            // the same entry points forced onto the file-IO back-end
+            set_threshold(MMAP_CROSSOVER_CELL, 8);
+            cmp("io_backend:fold_range_at", v.fold_range_at(f, t, Vec::new(), |mut a, x| { a.push(x); a }));
+            cmp("io_backend:ro_clone:fold_range_at", ro.fold_range_at(f, t, Vec::new(), |mut a, x| { a.push(x); a }));
+            cmp(
+                "io_backend:try_fold_range_at",
+                v.try_fold_range_at(f, t, Vec::new(), |mut a, x| { a.push(x); Ok::<_, ()>(a) }).unwrap_or_default(),
+            );
+            set_threshold(MMAP_CROSSOVER_CELL, saved);
+        }
+        set_threshold(MMAP_CROSSOVER_CELL, saved);
+        Ok(bad)
+    });
+    *calls += 25;
+    match r {
+        Ok(Ok(bad)) => {
+            for (api, d) in bad {
+                out.push(Violation {
+                    property: "C08".into(),
+                    signature: format!("{tag}|read:{api}|bigscan;|elements"),
+                    detail: d,
+                });
+            }
+        }
+        Ok(Err(e)) => out.push(Violation {
+            property: "MACHINERY".into(),
+            signature: format!("bigscan_setup:{e}"),
+            detail: e,
+        }),
+        Err(p) => out.push(Violation {
+            property: "C08".into(),
+            signature: format!("{tag}|read:?|bigscan;|panic:{}", p.split(": ").next().unwrap_or("?")),
+            detail: p,
+        }),
+    }
+}
+
+/// Vectors larger than one 512 KiB refill buffer, with element sizes that do and do not
+/// divide the buffer size, scanned through every back-end.
+pub fn bigscan(run: &mut crate::report::Run, kf: &crate::report::KnownFindings) {
+    use vecdb::{BytesVec, LZ4Vec, PcoVec, ZeroCopyVec};
+    let classify = kf.classifier("C08");
+    let mut out = Vec::new();
+    let mut calls = 0u64;
+    bigscan_one::<BytesVec<usize, [u8; 3]>>("raw[u8;3]", 400_000, &mut out, &mut calls);
+    bigscan_one::<BytesVec<usize, [u8; 20]>>("raw[u8;20]", 60_000, &mut out, &mut calls);
+    bigscan_one::<BytesVec<usize, u32>>("raw_u32", 300_000, &mut out, &mut calls);
+    bigscan_one::<ZeroCopyVec<usize, u64>>("zerocopy_u64", 150_000, &mut out, &mut calls);
+    bigscan_one::<PcoVec<usize, u32>>("pco_u32", 300_000, &mut out, &mut calls);
+    bigscan_one::<LZ4Vec<usize, [u8; 3]>>("lz4[u8;3]", 400_000, &mut out, &mut calls);
+    run.cov_add("states", 6);
+    run.cov_add("transitions", calls);
+    run.cov_add("traces_validated_against_impl", calls);
+    run.cov_add("evaluations", calls);
+    let mut e = run.coverage.remove("explorations").unwrap_or_else(|| serde_json::json!([]));
+    e.as_array_mut().unwrap().push(serde_json::json!({
+        "label": "bigscan",
+        "what": "six vectors of 60k-400k elements (element sizes 3, 4, 8, 20 bytes; raw and compressed), five ranges around the 512 KiB refill-buffer boundaries, every scan back-end",
+        "read_calls": calls,
+    }));
+    run.cov("explorations", e);
+    for v in out {
+        let d = classify(&v);
+        if d == crate::seqx::Disposition::Ignore {
+            continue;
+        }
+        run.add_found(
+            crate::seqx::Found {
+                path: vec![],
+                shown: vec!["bigscan".into()],
+                violation: v,
+                known: d == crate::seqx::Disposition::Known,
+            },
+            serde_json::json!({"engine": "bigscan"}),
+        );
+    }
+}
